@@ -69,7 +69,9 @@ FAMILIES = {
     'OrderedDict': (lambda k, v: collections.OrderedDict[k, v], ['SpyOrderedDict'], True),
     'Counter': (lambda k: collections.Counter[k], ['SpyCounter'], True),
 }
-ITEM_HINTS = ['int', 'str', 'optint', 'list_int', 'union', 'any', 'object']
+# (opt_list_int / int_or_list_int: a union of a plain class and a subscripted hint *inside* the container)
+ITEM_HINTS = ['int', 'str', 'optint', 'list_int', 'union', 'any', 'object', 'opt_list_int', 'int_or_list_int']
+LIST_ITEM_HINTS = ('list_int', 'opt_list_int', 'int_or_list_int')
 HASHABLE_ITEM_HINTS = ['int', 'str', 'optint', 'union', 'any']
 
 
@@ -98,7 +100,8 @@ def generate(rng, run, tier):
 
 
 def _item_hint(name):
-    return {'int': int, 'str': str, 'optint': typing.Optional[int], 'list_int': list[int],
+    return {'int': int, 'str': str, 'optint': typing.Optional[int], 'list_int': list[int], 'opt_list_int': typing.Optional[list[int]],
+            'int_or_list_int': typing.Union[int, list[int]],
             'union': typing.Union[int, bytes], 'any': typing.Any, 'object': object}[name]
 
 
@@ -217,7 +220,7 @@ def execute(case):
     except Exception as e:      # noqa
         return _out(case, probes, ('unexpected_exception', 'preparing %r raised %s: %s' % (hint, type(e).__name__, str(e)[:200]), 'prepare'))
     sizes = SIZES_THOROUGH if (case.get('tier') == 'thorough' or case.get('big')) else SIZES_QUICK
-    if case['item'] == 'list_int':
+    if case['item'] in LIST_ITEM_HINTS:
         sizes = [s for s in sizes if s <= 1000]
     viol = None
     sig_by = {}      # (entry, drawclass, verdict) -> {size: signature}
